@@ -254,7 +254,8 @@ def write_coqproject():
     for root, dirs, fs in os.walk(COQ):
         dirs.sort()
         for f in sorted(fs):
-            if f.endswith(".v"):
+            # scratch files of work in progress (X_t.v, X_tmp.v, tmp*.v, ...) are not part of the development
+            if f.endswith(".v") and not re.search(r"(^tmp|^scratch|_t\d*\.v$|_tmp\d*\.v$|_dbg\d*\.v$|_scratch\d*\.v$|_test\d*\.v$)", f):
                 files.append(os.path.relpath(os.path.join(root, f), COQ))
     if "Gen/Consts.v" not in files:
         files.append("Gen/Consts.v")
